@@ -1,1 +1,144 @@
-fn main(){}
+//! rmc-tr — the C01 totality body against the `tracing` feature build of
+//! rosu-map, with a subscriber that formats every event (so that every
+//! Display/source() impl of the error types is executed).
+//! usage: rmc-tr <quick|thorough>   (prints one "@@TR {json}" summary line)
+
+#[path = "../../rmc/src/props/c01_body.rs"]
+mod c01_body;
+#[path = "../../rmc/src/props/gen.rs"]
+#[allow(dead_code)]
+mod gen;
+
+use std::{
+    io::Write,
+    panic::{self, AssertUnwindSafe},
+    sync::atomic::{AtomicU64, Ordering},
+    sync::Mutex,
+};
+
+use rayon::prelude::*;
+
+static EVENTS: AtomicU64 = AtomicU64::new(0);
+static BYTES: AtomicU64 = AtomicU64::new(0);
+
+#[derive(Clone, Copy)]
+struct Sink;
+impl Write for Sink {
+    fn write(&mut self, buf: &[u8]) -> std::io::Result<usize> {
+        EVENTS.fetch_add(1, Ordering::Relaxed);
+        BYTES.fetch_add(buf.len() as u64, Ordering::Relaxed);
+        Ok(buf.len())
+    }
+    fn flush(&mut self) -> std::io::Result<()> {
+        Ok(())
+    }
+}
+
+const SIGMA: [u8; 21] = [
+    0xEF, 0xBB, 0xBF, 0xFF, 0xFE, 0x00, 0x0A, 0x0D, 0x20, b'[', b']', b'/', b':', b',', b'|', b'v', b'1', b'-', 0x80, 0xC3, 0xD8,
+];
+
+fn hex(b: &[u8]) -> String {
+    b.iter().map(|x| format!("{x:02x}")).collect()
+}
+
+fn inputs(thorough: bool) -> Vec<Vec<u8>> {
+    let mut v: Vec<Vec<u8>> = Vec::new();
+    // all byte strings up to length 3 (4)
+    let n = if thorough { 4 } else { 3 };
+    for len in 0..=n {
+        for idx in 0..(SIGMA.len() as u64).pow(len as u32) {
+            let mut k = idx;
+            let mut s = Vec::new();
+            for _ in 0..len {
+                s.push(SIGMA[(k % SIGMA.len() as u64) as usize]);
+                k /= SIGMA.len() as u64;
+            }
+            v.push(s);
+        }
+    }
+    // every record of the baseline / alphabets with one hostile field (every error type is produced)
+    let base = gen::baseline(0, 14);
+    for mode in [0u8, 3] {
+        for (section, recs) in &base.sections {
+            let mut all: Vec<String> = recs.clone();
+            all.extend(gen::record_alphabet(section).iter().map(|r| gen::at_time(r, 1000)));
+            for r in all {
+                let seps: &[char] = &[',', ':', '|'];
+                let fields: Vec<&str> = r.split(seps).collect();
+                for f in 0..fields.len().min(16) {
+                    for h in gen::HOSTILE {
+                        // rebuild with original separators
+                        let mut out = String::new();
+                        let mut field = 0;
+                        let mut cur = String::new();
+                        for ch in r.chars() {
+                            if seps.contains(&ch) {
+                                out.push_str(if field == f { h } else { &cur });
+                                cur.clear();
+                                out.push(ch);
+                                field += 1;
+                            } else {
+                                cur.push(ch);
+                            }
+                        }
+                        out.push_str(if field == f { h } else { &cur });
+                        v.push(format!("osu file format vX\nosu file format v14\n[General]\nMode: {mode}\n[{section}]\n{out}\n").into_bytes());
+                    }
+                }
+            }
+        }
+    }
+    // every truncation of the small bundled files (UTF-8 and UTF-16LE)
+    if let Ok(rd) = std::fs::read_dir("/repo/resources") {
+        let mut names: Vec<_> = rd.filter_map(|e| e.ok()).map(|e| e.path()).collect();
+        names.sort();
+        for p in names {
+            let Ok(b) = std::fs::read(&p) else { continue };
+            if b.len() > 1024 {
+                v.push(b);
+                continue;
+            }
+            for c in 0..=b.len() {
+                v.push(b[..c].to_vec());
+            }
+            let text = String::from_utf8_lossy(&b).into_owned();
+            let mut le = vec![0xFF, 0xFE];
+            for u in text.encode_utf16() {
+                le.extend_from_slice(&u.to_le_bytes());
+            }
+            for c in (0..=le.len()).step_by(if thorough { 1 } else { 3 }) {
+                v.push(le[..c].to_vec());
+            }
+        }
+    }
+    v
+}
+
+fn main() {
+    let thorough = std::env::args().nth(1).as_deref() == Some("thorough");
+    panic::set_hook(Box::new(|_| {}));
+    tracing_subscriber::fmt()
+        .with_max_level(tracing::Level::TRACE)
+        .with_writer(|| Sink)
+        .init();
+    let ins = inputs(thorough);
+    let failures: Mutex<Vec<serde_json::Value>> = Mutex::new(Vec::new());
+    ins.par_iter().for_each(|bytes| {
+        let guard = |f: &mut dyn FnMut()| panic::catch_unwind(AssertUnwindSafe(|| f())).map_err(|_| "panic (tracing build)".to_string());
+        let out = c01_body::totality(bytes, &guard);
+        if !out.failures.is_empty() {
+            let mut g = failures.lock().unwrap();
+            if g.len() < 20 {
+                for (class, msg) in out.failures {
+                    g.push(serde_json::json!({"class": class, "msg": msg, "hex": hex(bytes)}));
+                }
+            }
+        }
+    });
+    let f = failures.into_inner().unwrap();
+    println!(
+        "@@TR {}",
+        serde_json::json!({"evals": ins.len(), "events": EVENTS.load(Ordering::Relaxed), "event_bytes": BYTES.load(Ordering::Relaxed), "failures": f})
+    );
+}
